@@ -82,7 +82,7 @@ func resolveAttack(c *Ctx) *attackAnchors {
 	})
 	// worker: callee of go statements (anywhere under Attack) receiving the results channel
 	for _, g := range a.workerGos() {
-		callee := g.Call.StaticCallee()
+		callee := goCallee(g)
 		if a.Worker != nil && a.Worker != callee {
 			bad("several different worker functions receive the results channel")
 		}
@@ -468,7 +468,7 @@ func c02SendSites(c *Ctx, a *attackAnchors) {
 		key := fmt.Sprintf("worker-spawn:%s#%d", shortFn(sp.Fn), k)
 		var hasWG, hasTicks, hasResults bool
 		given := append([]ssa.Value(nil), g.Call.Args...)
-		if mc, isMC := g.Call.Value.(*ssa.MakeClosure); isMC {
+		if mc, isMC := resolveOnceV(g.Call.Value).(*ssa.MakeClosure); isMC {
 			given = append(given, mc.Bindings...) // a function-literal worker captures them instead
 		}
 		for _, arg := range given {
@@ -528,7 +528,7 @@ func c02SendSites(c *Ctx, a *attackAnchors) {
 	// no worker is started from anywhere else in lib
 	for _, fn := range c.P.RepoFuncs("lib") {
 		eachInstr(fn, func(i ssa.Instruction) {
-			if g, ok := i.(*ssa.Go); ok && g.Call.StaticCallee() == a.Worker {
+			if g, ok := i.(*ssa.Go); ok && goCallee(g) == a.Worker {
 				under := false
 				for _, f := range withAnon(a.Attack) {
 					if f == fn {
@@ -1208,10 +1208,7 @@ func c02Goroutines(c *Ctx, a *attackAnchors) {
 			n++
 			key := fmt.Sprintf("goroutine-terminates:%s#%d", shortFn(fn), k)
 			k++
-			callee := g.Call.StaticCallee()
-			if callee == nil {
-				callee = closureOf(g.Call.Value)
-			}
+			callee := goCallee(g)
 			switch {
 			case callee == nil:
 				c.Undecided(key, rule, "go statement with a dynamic callee", c.at(g))
@@ -1540,7 +1537,56 @@ func c02PumpIn(c *Ctx) {
 		}
 	})
 	encs := findInstrs(ctxFn, isEncode)
-	if pmIf == nil || len(encs) == 0 || !instrDominates(pmIf, encs[0]) || (ctxFn == fn && !edgeDominates(okIf.Block(), indexOfSucc(okIf.Block(), okSucc), pmIf.Block())) {
+	// hoisted form: `observe := func(*Result){}; if pm != nil { observe = pm.Observe }` … `observe(r)`
+	observedByVar := false
+	{
+		eachInstr(ctxFn, func(i ssa.Instruction) {
+			call, ok := i.(*ssa.Call)
+			if !ok || call.Call.IsInvoke() || call.Call.StaticCallee() != nil || len(call.Call.Args) != 1 || call.Call.Args[0] != ctxVal {
+				return
+			}
+			cands := []ssa.Value{call.Call.Value}
+			if phi, isPhi := call.Call.Value.(*ssa.Phi); isPhi {
+				cands = phi.Edges
+			}
+			nObs, bad := 0, false
+			for _, cv := range cands {
+				if cv == call.Call.Value {
+					continue // the variable carried round the loop
+				}
+				if m := boundMethod(cv); m != nil && shortFn(m) == "(*lib/prom.Metrics).Observe" {
+					if mc := strip(cv).(*ssa.MakeClosure); len(mc.Bindings) == 1 {
+						if p, isP := mc.Bindings[0].(*ssa.Parameter); isP && isNamedType(p.Type(), "lib/prom", "Metrics") {
+							nObs++
+							continue
+						}
+					}
+					bad = true
+					continue
+				}
+				if f := closureOf(cv); f != nil && len(f.Blocks) == 1 && len(f.Blocks[0].Instrs) == 1 {
+					continue // the no-op used when metrics are disabled
+				}
+				bad = true
+			}
+			if bad || nObs == 0 {
+				return
+			}
+			// every received result passes the observer before it is encoded
+			set := exploreBlock(ctxStart, func(x ssa.Instruction) bool { return x == ssa.Instruction(call) })
+			for x := range set {
+				if isEncode(x) || x == ssa.Instruction(sel) {
+					return
+				}
+			}
+			if len(returnsIn(set)) == 0 {
+				observedByVar = true
+			}
+		})
+	}
+	if observedByVar {
+		pmIf = nil
+	} else if pmIf == nil || len(encs) == 0 || !instrDominates(pmIf, encs[0]) || (ctxFn == fn && !edgeDominates(okIf.Block(), indexOfSucc(okIf.Block(), okSucc), pmIf.Block())) {
 		c.Fail(key, rule, "no `pm != nil` test before the result is encoded", c.at(okIf))
 		return
 	}
@@ -1549,16 +1595,18 @@ func c02PumpIn(c *Ctx) {
 		call, ok := i.(*ssa.Call)
 		return ok && callName(&call.Call) == "(*lib/prom.Metrics).Observe" && len(call.Call.Args) == 2 && call.Call.Args[1] == ctxVal
 	}
-	setO := exploreBlock(pmIf.Block().Succs[0], isObserve)
-	for i := range setO {
-		if isEncode(i) || i == ssa.Instruction(sel) {
-			c.Fail(key, rule, "with metrics enabled a result can be encoded without being observed", c.at(pmIf))
+	if pmIf != nil {
+		setO := exploreBlock(pmIf.Block().Succs[0], isObserve)
+		for i := range setO {
+			if isEncode(i) || i == ssa.Instruction(sel) {
+				c.Fail(key, rule, "with metrics enabled a result can be encoded without being observed", c.at(pmIf))
+				return
+			}
+		}
+		if len(returnsIn(setO)) > 0 {
+			c.Fail(key, rule, "with metrics enabled a result can be skipped by Observe", c.at(pmIf))
 			return
 		}
-	}
-	if len(returnsIn(setO)) > 0 {
-		c.Fail(key, rule, "with metrics enabled a result can be skipped by Observe", c.at(pmIf))
-		return
 	}
 	// signal → Stop; !stopSent → return nil; else continue
 	var stopCall *ssa.Call
